@@ -586,7 +586,11 @@ func modeC04(e *Env) {
 		plans := faultPlans(l, start, pacing, stride, e.R)
 		for _, fp := range plans {
 			id++
-			RunStreamScenario(e.Rec, &StreamScenario{ID: id, Fam: "c04", Log: l, Start: start, ServerID: 11,
+			sid := uint32(11)
+			if id%9 == 4 {
+				sid = l.Cfg.ServerID // the replica registers with the id the events carry (chained masters, a re-used id): events are events
+			}
+			RunStreamScenario(e.Rec, &StreamScenario{ID: id, Fam: "c04", Log: l, Start: start, ServerID: sid,
 				Attempts: []AttemptPlan{fp, defaultAttempt()}, Note: "single"})
 		}
 		// a failure after some progress, then an attempt that ends before its dump starts (master unreachable, handshake
@@ -882,6 +886,14 @@ func stopPlans(l *Log, start Pos, r *rand.Rand, stride int) []AttemptPlan {
 	for _, cf := range []string{"handshake_close", "handshake_err", "set_err", "set_then_reset", "dump_close", "dump_err"} {
 		a := defaultAttempt()
 		a.ConnFault = cf
+		out = append(out, a)
+	}
+	// the first connection of the attempt dies before the checksum announcement is answered; should the library dial again within
+	// the same Stream call, that connection is healthy and the dump ends with a master error
+	{
+		a := defaultAttempt()
+		a.ConnFault = "set_drop_once"
+		a.Fault = &Fault{Kind: "err", At: npk, Code: 1236, Msg: "after a second dial"}
 		out = append(out, a)
 	}
 	// the master ends the dump with an ERR packet carrying a code that drivers, proxies and replication code bases are known
